@@ -62,9 +62,23 @@ func Commit(db objects.Store, rs ref.Store, id uuid.UUID) (commits map[string]*o
 	if err != nil {
 		return nil, err
 	}
+	// branches already moved by an earlier, interrupted attempt to commit
+	// this transaction are recorded in the reflog under its id
+	logs, err := rs.GetTransactionLogs(id)
+	if err != nil {
+		return nil, err
+	}
 	commits = map[string]*objects.Commit{}
 	buf := bytes.NewBuffer(nil)
 	for branch, sum := range m {
+		if rl, done := logs[ref.HeadRef(branch)]; done {
+			com, err := objects.GetCommit(db, rl.NewOID)
+			if err != nil {
+				return nil, err
+			}
+			commits[ref.HeadRef(branch)] = com
+			continue
+		}
 		com, err := objects.GetCommit(db, sum)
 		if err != nil {
 			return nil, err
